@@ -10,7 +10,7 @@ CHECKS = {
          "Held on N seeded (workload, configuration) executions of the real writer/readers; the evidence lists how many and of what shape. Exploration is the right level: the property quantifies over unbounded inputs x configurations and the code is single-threaded, so reach comes from input diversity.",
          "Call log recorded by the harness driver is ground truth; custom compression via lexer only; generator bounds in DESIGN.md section 3/C01.", "3/C01"),
  "C02": ("exploration", "differential monitor: index-based reads, Info-driven random access and metadata callbacks against the sequential scan and the call log",
-         "Every index-based spelling of Messages() is compared with the scan of the same file over all 256 summary-flag combinations; two iterators of one Reader consumed alternately; fall-back-or-error clause applied outside the indexed precondition.",
+         "Every index-based spelling of Messages() is compared with the scan of the same file over all 256 summary-flag combinations; two iterators of one Reader consumed alternately; reads on a Reader that has already served Info(), GetMetadata() or a second Messages() call; fall-back-or-error clause applied outside the indexed precondition (one recorded known finding: topic selection without summary channels).",
          "The sequential scan is judged by C01; time-order correctness by C03.", "3/C02"),
  "C03": ("exploration", "order/exactly-once monitor over unique message ids; small-scope exhaustive enumeration (621435 files in the thorough tier) + random large files",
          "Exhaustive over every file of <= 3 chunks x <= 3 messages x 4 timestamps (thorough), sampled in quick; random large files from two producers; structured files with thousands of queued index entries and hundreds of simultaneously live chunks.",
@@ -28,7 +28,7 @@ CHECKS = {
          "Every bit of every byte of every chunk payload / attachment record of the enumerated files (none/zstd/lz4/custom compressor, incl. message-less chunks) is flipped; the oracle compares what is yielded before the first report with the original records; attachment CRCs are queried in both orders.",
          "Positions from the reference decoder; CRC-32 collisions would be reported (they are violations).", "3/C07"),
  "C08": ("exploration", "aggregate reference model over the call log vs Writer.Statistics, statistics record and Reader.Info",
-         "Aggregates recomputed from the call log and compared with the three observation points on seeded and targeted stateful workloads.",
+         "Aggregates recomputed from the call log and compared with the three observation points (incl. Info.ChannelCounts per topic) on seeded and targeted stateful workloads.",
          "Call log is ground truth; chunk count and summary groups from the reference decoder.", "3/C08"),
  "C09": ("fault_enumeration", "exhaustive truncation at every byte offset, prefix/completeness oracle over lexer and scan iterator",
          "Every cut position of every enumerated small file x 3 reader configurations; boundary neighbourhoods plus seeded cuts of 1-2 MiB files holding records above 1 MiB and chunks above 64 KiB.",
@@ -40,13 +40,13 @@ CHECKS = {
          "Both files are verified spec-valid, then everything the Go readers report is projected to an offset-free form and compared.",
          "Unknown records never placed between a chunk and its message indexes; padded conformance vectors via C17.", "3/C11"),
  "C12": ("exploration", "reference-model monitor: one logical content, many reference-encoded layouts, all reader outputs compared with the content",
-         "Exhaustive over chunk partitions of a 6-message content, all 720 summary-group permutations, plus random layouts.",
+         "Exhaustive over chunk partitions of a 6-message content, all 720 summary-group permutations, plus random layouts; the lexer reads from a source that yields the processor before every Read (decompressor read-ahead really runs concurrently).",
          "Every layout is verified spec-valid by the reference validator before use.", "3/C12"),
  "C13": ("exploration", "hash comparison across map orders, processes (GOMAXPROCS 1/2/4/16) and concurrent goroutines under the Go race detector",
          "SHA-256 of outputs compared across runs (message-level calls, and chunk-level copies through WriteChunkWithIndexes); -race binary with 16 goroutines of independent writers/readers, golden digests, race log scanned.",
          "Race detector reports only races on interleavings that occurred.", "3/C13"),
- "C14": ("fault_enumeration", "exhaustive enumeration of failing sink writes (6 failure modes per write index) and failing/short/long attachment sources (several error identities, error alone or with the last bytes)",
-         "Every sink write of every enumerated (workload, configuration) is failed in six ways (no bytes / short count / all bytes accepted + error, once or permanently); the call that hit it must report an error and accepted bytes stay a prefix.",
+ "C14": ("fault_enumeration", "exhaustive enumeration of failing sink writes (8 failure modes per write index) and failing/short/long attachment sources (several error identities, error alone or with the last bytes)",
+         "Every sink write of every enumerated (workload, configuration) is failed in eight ways (no bytes + error / short count + io.ErrShortWrite / all bytes accepted + error / short count + nil error, each once or permanently); the call that hit it must report an error and accepted bytes stay a prefix.",
          "Sinks honour the io.Writer contract; write pattern deterministic (checked).", "3/C14"),
  "C15": ("fault_enumeration", "exhaustive injection of a read error at every byte position and at the end-of-file position (sticky and once; two further calls after a permanent failure), failing seeks, and five delivery schedules, over eight reader configurations",
          "Every byte position of every enumerated file (0..len inclusive) x 2 fault modes x 8 readers; after a permanent failure the reader is asked twice more and may neither return a record nor a clean end.",
